@@ -45,7 +45,7 @@ type rdSys struct {
 	rel      []int64  // relative alphabet (offsets from newest), or
 	abs      []uint64 // absolute alphabet
 	dead     bool
-	deferred bool     // C04: a successful check may keep its accept callback for later ("D:" / "A:k")
+	deferred bool // C04: a successful check may keep its accept callback for later ("D:" / "A:k")
 	pend     []pendAcc
 }
 
@@ -161,6 +161,7 @@ func (s *rdSys) Ops() []string {
 }
 
 func (s *rdSys) Apply(op string) (obs, sig, msg string) {
+	defer panicAsViolation(op, &sig, &msg)
 	i := strings.IndexByte(op, ':')
 	seq, _ := strconv.ParseUint(op[i+1:], 10, 64)
 	doAccept := op[:i] == "CA"
